@@ -62,12 +62,27 @@ type lockAnalysis struct {
 	unpaired []lockAccess                  // unlock without lock etc. (reported)
 	onlyRecv string                        // if set, only methods of this receiver type are analysed
 	exitHeld map[*ast.FuncDecl][]token.Pos // returns with lock held and no deferred unlock
+	// callbackLvl: weakest lock level at which a function calls its i-th (function-typed) parameter
+	callbackLvl map[*types.Func]map[int]int
+	// paramGuard: helpers that take the mutex and a table as parameters (lookup(&vm.mu, vm.tbl, k))
+	paramGuard map[*types.Func]*paramGuardSummary
+}
+
+type paramGuardSummary struct {
+	muIdx  int
+	tables map[int]*paramTableUse
+}
+
+type paramTableUse struct {
+	reads, writes     bool
+	readLvl, writeLvl int
 }
 
 func newLockAnalysis(r *Run, pkg *packages.Package, owner *types.Named) *lockAnalysis {
 	la := &lockAnalysis{r: r, pkg: pkg, owner: owner, mutexes: map[*types.Var]bool{}, guarded: map[*types.Var]bool{},
 		accesses: map[*ast.FuncDecl][]lockAccess{}, calls: map[*ast.FuncDecl][]lockCallSite{}, locks: map[*ast.FuncDecl]bool{},
-		ownReads: map[*types.Func]map[*types.Var]bool{}, declOf: map[*types.Func]*ast.FuncDecl{}, exitHeld: map[*ast.FuncDecl][]token.Pos{}}
+		ownReads: map[*types.Func]map[*types.Var]bool{}, declOf: map[*types.Func]*ast.FuncDecl{}, exitHeld: map[*ast.FuncDecl][]token.Pos{},
+		callbackLvl: map[*types.Func]map[int]int{}, paramGuard: map[*types.Func]*paramGuardSummary{}}
 	st := owner.Underlying().(*types.Struct)
 	for i := 0; i < st.NumFields(); i++ {
 		f := st.Field(i)
@@ -157,6 +172,45 @@ func (la *lockAnalysis) analyseFunc(fd *ast.FuncDecl, entryLvl int) {
 		}
 		return true
 	})
+	// function literals handed to a package function that calls them only under the lock, and guarded
+	// tables handed (with the mutex) to a helper that takes the lock itself
+	litEntry := map[*ast.FuncLit]int{}
+	tableArg := map[ast.Expr]*paramTableUse{}
+	ast.Inspect(fd.Body, func(n ast.Node) bool {
+		c, ok := n.(*ast.CallExpr)
+		if !ok {
+			return true
+		}
+		callee, _ := calleeOf(info, c).(*types.Func)
+		if callee == nil {
+			return true
+		}
+		callee = callee.Origin()
+		for i, a := range c.Args {
+			if lit, ok := ast.Unparen(a).(*ast.FuncLit); ok {
+				if lv, ok := la.callbackLevels(callee)[i]; ok {
+					litEntry[lit] = lv
+				}
+			}
+		}
+		if pg := la.paramGuardOf(callee); pg != nil && pg.muIdx < len(c.Args) {
+			// the mutex argument must be the owner's own mutex: &recv.mu
+			if u, ok := ast.Unparen(c.Args[pg.muIdx]).(*ast.UnaryExpr); ok && u.Op == token.AND {
+				if se, ok := ast.Unparen(u.X).(*ast.SelectorExpr); ok {
+					if sel, ok := info.Selections[se]; ok {
+						if v, ok := sel.Obj().(*types.Var); ok && la.mutexes[v] {
+							for ti, use := range pg.tables {
+								if ti < len(c.Args) {
+									tableArg[ast.Unparen(c.Args[ti])] = use
+								}
+							}
+						}
+					}
+				}
+			}
+		}
+		return true
+	})
 	h := &Hooks{Info: info}
 	h.Copy = func(s State) State { return s.(*lockState).clone() }
 	h.Join = func(a, b State) State {
@@ -201,6 +255,18 @@ func (la *lockAnalysis) analyseFunc(fd *ast.FuncDecl, entryLvl int) {
 		s := st.(*lockState)
 		switch x := e.(type) {
 		case *ast.SelectorExpr:
+			if use := tableArg[x]; use != nil {
+				if f := la.guardedField(x); f != nil {
+					// the helper locks the mutex it is given around every use of the table
+					if use.reads {
+						record(lockAccess{fn: fd, field: f, pos: x.Pos(), lvl: maxInt(s.lvl, use.readLvl)})
+					}
+					if use.writes {
+						record(lockAccess{fn: fd, field: f, write: true, pos: x.Pos(), lvl: maxInt(s.lvl, use.writeLvl)})
+					}
+					return s
+				}
+			}
 			if f := la.guardedField(x); f != nil && !lhsBase[x] {
 				record(lockAccess{fn: fd, field: f, pos: x.Pos(), lvl: s.lvl})
 				if s.lvl > 0 {
@@ -239,8 +305,9 @@ func (la *lockAnalysis) analyseFunc(fd *ast.FuncDecl, entryLvl int) {
 				}
 			}
 		case *ast.FuncLit:
-			// closures: analysed with no lock held (conservative for go/defer/callbacks)
-			la.analyseLit(fd, x, record)
+			// closures: analysed with no lock held (conservative for go/defer/callbacks), unless they are
+			// handed to a package function that calls its parameter only while it holds the lock
+			la.analyseLit(fd, x, record, litEntry[x])
 		}
 		return s
 	}
@@ -326,7 +393,7 @@ func (la *lockAnalysis) analyseFunc(fd *ast.FuncDecl, entryLvl int) {
 }
 
 // analyseLit records accesses inside a function literal with its own lock tracking starting unlocked.
-func (la *lockAnalysis) analyseLit(fd *ast.FuncDecl, lit *ast.FuncLit, record func(lockAccess)) {
+func (la *lockAnalysis) analyseLit(fd *ast.FuncDecl, lit *ast.FuncLit, record func(lockAccess), entryLvl int) {
 	info := la.pkg.TypesInfo
 	h := &Hooks{Info: info}
 	h.Copy = func(s State) State { return s.(*lockState).clone() }
@@ -356,7 +423,7 @@ func (la *lockAnalysis) analyseLit(fd *ast.FuncDecl, lit *ast.FuncLit, record fu
 				s.lvl = 0
 			}
 		case *ast.FuncLit:
-			la.analyseLit(fd, x, record)
+			la.analyseLit(fd, x, record, 0)
 		}
 		return s
 	}
@@ -378,7 +445,7 @@ func (la *lockAnalysis) analyseLit(fd *ast.FuncDecl, lit *ast.FuncLit, record fu
 		}
 		return s
 	}
-	WalkFunc(h, lit.Body, &lockState{cur: map[*types.Var]bool{}, stale: map[*types.Var]bool{}})
+	WalkFunc(h, lit.Body, &lockState{lvl: entryLvl, cur: map[*types.Var]bool{}, stale: map[*types.Var]bool{}})
 }
 
 func lvlName(l int) string { return [...]string{"no lock", "read lock", "write lock"}[l] }
@@ -723,4 +790,265 @@ func fieldNames(m map[*types.Var]bool) string {
 	}
 	sort.Strings(n)
 	return strings.Join(n, ",")
+}
+
+func maxInt(a, b int) int {
+	if a > b {
+		return a
+	}
+	return b
+}
+
+// callbackLevels: for a function of the package, the weakest lock level (of the owner's mutex) at which
+// each function-typed parameter is called; a parameter that is used in any other way is not listed.
+func (la *lockAnalysis) callbackLevels(f *types.Func) map[int]int {
+	if m, ok := la.callbackLvl[f]; ok {
+		return m
+	}
+	out := map[int]int{}
+	la.callbackLvl[f] = out
+	if f.Pkg() != la.pkg.Types {
+		return out
+	}
+	fd := declOf(la.pkg, f)
+	if fd == nil || fd.Body == nil {
+		return out
+	}
+	info := la.pkg.TypesInfo
+	params := map[types.Object]int{}
+	i := 0
+	for _, fl := range fd.Type.Params.List {
+		for _, nm := range fl.Names {
+			if _, isSig := info.TypeOf(fl.Type).Underlying().(*types.Signature); isSig {
+				params[info.Defs[nm]] = i
+			}
+			i++
+		}
+		if len(fl.Names) == 0 {
+			i++
+		}
+	}
+	if len(params) == 0 {
+		return out
+	}
+	lvls := map[int]int{}
+	called := map[*ast.Ident]bool{}
+	h := &Hooks{Info: info}
+	h.Copy = func(s State) State { c := *s.(*int); return &c }
+	h.Join = func(a, b State) State {
+		x, y := *a.(*int), *b.(*int)
+		if y < x {
+			x = y
+		}
+		return &x
+	}
+	h.Equal = func(a, b State) bool { return *a.(*int) == *b.(*int) }
+	h.Visit = func(e ast.Expr, st State) State {
+		s := st.(*int)
+		if c, ok := e.(*ast.CallExpr); ok {
+			switch la.mutexOp(c) {
+			case "Lock":
+				*s = 2
+			case "RLock":
+				*s = 1
+			case "Unlock", "RUnlock":
+				*s = 0
+			}
+			if id, ok := ast.Unparen(c.Fun).(*ast.Ident); ok {
+				if pi, ok := params[info.Uses[id]]; ok {
+					called[id] = true
+					if prev, seen := lvls[pi]; !seen || *s < prev {
+						lvls[pi] = *s
+					}
+				}
+			}
+		}
+		return s
+	}
+	zero := 0
+	WalkFunc(h, fd.Body, &zero)
+	// any other use of the parameter (stored, passed on, deferred, go) voids the summary
+	escaped := map[int]bool{}
+	ast.Inspect(fd.Body, func(n ast.Node) bool {
+		switch x := n.(type) {
+		case *ast.Ident:
+			if pi, ok := params[info.Uses[x]]; ok && !called[x] {
+				escaped[pi] = true
+			}
+		case *ast.GoStmt:
+			if id, ok := ast.Unparen(x.Call.Fun).(*ast.Ident); ok {
+				if pi, ok := params[info.Uses[id]]; ok {
+					escaped[pi] = true
+				}
+			}
+		case *ast.DeferStmt:
+			if id, ok := ast.Unparen(x.Call.Fun).(*ast.Ident); ok {
+				if pi, ok := params[info.Uses[id]]; ok {
+					escaped[pi] = true
+				}
+			}
+		}
+		return true
+	})
+	for pi, lv := range lvls {
+		if !escaped[pi] {
+			out[pi] = lv
+		}
+	}
+	return out
+}
+
+// paramGuardOf: a helper that receives a mutex and one or more tables as parameters and touches the
+// tables only between Lock/RLock and Unlock of that mutex parameter.
+func (la *lockAnalysis) paramGuardOf(f *types.Func) *paramGuardSummary {
+	if pg, ok := la.paramGuard[f]; ok {
+		return pg
+	}
+	la.paramGuard[f] = nil
+	if f.Pkg() != la.pkg.Types {
+		return nil
+	}
+	fd := declOf(la.pkg, f)
+	if fd == nil || fd.Body == nil || fd.Recv != nil {
+		return nil
+	}
+	info := la.pkg.TypesInfo
+	var muObj types.Object
+	muIdx := -1
+	tables := map[types.Object]int{}
+	i := 0
+	for _, fl := range fd.Type.Params.List {
+		t := info.TypeOf(fl.Type)
+		for _, nm := range fl.Names {
+			if pt, ok := t.(*types.Pointer); ok && (isNamed(pt.Elem(), "sync", "RWMutex") || isNamed(pt.Elem(), "sync", "Mutex")) {
+				muObj, muIdx = info.Defs[nm], i
+			}
+			if _, isMap := t.Underlying().(*types.Map); isMap {
+				tables[info.Defs[nm]] = i
+			}
+			i++
+		}
+		if len(fl.Names) == 0 {
+			i++
+		}
+	}
+	if muObj == nil || len(tables) == 0 {
+		return nil
+	}
+	pg := &paramGuardSummary{muIdx: muIdx, tables: map[int]*paramTableUse{}}
+	for _, ti := range tables {
+		pg.tables[ti] = &paramTableUse{readLvl: 2, writeLvl: 2}
+	}
+	okUse := map[*ast.Ident]bool{}
+	lhsIndex := map[*ast.IndexExpr]bool{}
+	ast.Inspect(fd.Body, func(n ast.Node) bool {
+		if as, ok := n.(*ast.AssignStmt); ok {
+			for _, l := range as.Lhs {
+				if ix, ok := ast.Unparen(l).(*ast.IndexExpr); ok {
+					lhsIndex[ix] = true
+				}
+			}
+		}
+		return true
+	})
+	h := &Hooks{Info: info}
+	h.Copy = func(s State) State { c := *s.(*int); return &c }
+	h.Join = func(a, b State) State {
+		x, y := *a.(*int), *b.(*int)
+		if y < x {
+			x = y
+		}
+		return &x
+	}
+	h.Equal = func(a, b State) bool { return *a.(*int) == *b.(*int) }
+	note := func(id *ast.Ident, write bool, lvl int) {
+		ti, ok := tables[info.Uses[id]]
+		if !ok {
+			return
+		}
+		okUse[id] = true
+		u := pg.tables[ti]
+		if write {
+			u.writes = true
+			if lvl < u.writeLvl {
+				u.writeLvl = lvl
+			}
+		} else {
+			u.reads = true
+			if lvl < u.readLvl {
+				u.readLvl = lvl
+			}
+		}
+	}
+	h.Visit = func(e ast.Expr, st State) State {
+		s := st.(*int)
+		switch x := e.(type) {
+		case *ast.CallExpr:
+			if se, ok := ast.Unparen(x.Fun).(*ast.SelectorExpr); ok {
+				if id, ok := ast.Unparen(se.X).(*ast.Ident); ok && info.Uses[id] == muObj {
+					switch se.Sel.Name {
+					case "Lock":
+						*s = 2
+					case "RLock":
+						*s = 1
+					case "Unlock", "RUnlock":
+						*s = 0
+					}
+				}
+			}
+			if id, ok := ast.Unparen(x.Fun).(*ast.Ident); ok && len(x.Args) >= 1 {
+				if b, ok := info.Uses[id].(*types.Builtin); ok {
+					if aid, ok := ast.Unparen(x.Args[0]).(*ast.Ident); ok {
+						switch b.Name() {
+						case "len":
+							note(aid, false, *s)
+						case "delete", "clear":
+							note(aid, true, *s)
+						}
+					}
+				}
+			}
+		case *ast.IndexExpr:
+			if id, ok := ast.Unparen(x.X).(*ast.Ident); ok {
+				note(id, lhsIndex[x], *s)
+			}
+		}
+		return s
+	}
+	h.RangeBody = func(rs *ast.RangeStmt, st State) State {
+		if id, ok := ast.Unparen(rs.X).(*ast.Ident); ok {
+			note(id, false, *st.(*int))
+		}
+		return st
+	}
+	h.Stmt = func(stm ast.Stmt, st State) State {
+		// m[k] = v: the index expression on the left is not visited as a read
+		if as, ok := stm.(*ast.AssignStmt); ok {
+			for _, l := range as.Lhs {
+				if ix, ok := ast.Unparen(l).(*ast.IndexExpr); ok {
+					if id, ok := ast.Unparen(ix.X).(*ast.Ident); ok {
+						note(id, true, *st.(*int))
+					}
+				}
+			}
+		}
+		return st
+	}
+	zero := 0
+	WalkFunc(h, fd.Body, &zero)
+	// a table that is used in any other way (returned, stored, passed on) has no summary
+	bad := false
+	ast.Inspect(fd.Body, func(n ast.Node) bool {
+		if id, ok := n.(*ast.Ident); ok {
+			if _, isTable := tables[info.Uses[id]]; isTable && !okUse[id] {
+				bad = true
+			}
+		}
+		return true
+	})
+	if bad {
+		return nil
+	}
+	la.paramGuard[f] = pg
+	return pg
 }
